@@ -20,7 +20,7 @@ ENV = dict(os.environ, GOFLAGS="-mod=mod", GOPROXY="off", GOSUMDB="off", GOTOOLC
 
 
 def sh(cmd, cwd, timeout=1200):
-    p = subprocess.run(cmd, cwd=cwd, shell=True, env=ENV, stdout=subprocess.PIPE, stderr=subprocess.STDOUT, text=True, timeout=timeout)
+    p = subprocess.run(["bash", "-o", "pipefail", "-c", cmd], cwd=cwd, env=ENV, stdout=subprocess.PIPE, stderr=subprocess.STDOUT, text=True, timeout=timeout)
     return p.returncode, p.stdout
 
 
@@ -42,6 +42,12 @@ def main():
         for ln in run_txt.splitlines():
             ln = ln.strip()
             if re.match(r"(cp|mkdir) ", ln) or ln.startswith("go test") or ln.startswith("go run"):
+                ln = ln.replace("<repo-root>/", "").replace("<repo root>/", "")
+                if ln.startswith("cp "):
+                    parts = ln.split()
+                    if not parts[1].startswith(("OUT/", "/")):     # a path relative to the demo directory
+                        parts[1] = "OUT/%s/demo/%s" % (label, parts[1])
+                    ln = " ".join(parts)
                 cmds.append(ln)
         rec["demo_cmds"] = cmds
         demo = " && ".join(cmds)
